@@ -227,7 +227,11 @@ Proof. exact multistage_run. Qed.
 Print Assumptions C05_multistage_forward_total.
 
 """
-mk('C05', ['Inst','GW2','RevCost','BinomDP','RevConv','RevBridge4','RevolveRun','RevolveGW','Opt0Table','GenLang3','GenMulti','SeqGenSpec'], [C05_total, lifted('C05_revolve_sequence_is_source', 'SeqGenSpec', 'revolve_top_is_source', SEQ_SRC),
+HELPER_SRC = 'THE PUBLISHED HELPER IS THE SOURCE: HelperGenSpec.oes_shape / osb_shape are the Gallina functions harness/translate.py (HelperTr) renders from optimal_extra_steps (behind cache_step: the clamp s = min(s, n - 1), the dictionary being a pure memo) and optimal_steps_binomial of multistage.py -- the recursion on explicit fuel, `for i in range(1, n)` as py_forB over the optional running best; Gen/HelperGen.v re-translates the current source on every run and proves the result equal to these terms by conversion.  The shape is equal, for every fuel and argument, to BinomDP.Em, the dynamic program C05_chain / C05_gw_main are proved about'
+mk('C05', ['Inst','GW2','RevCost','BinomDP','RevConv','RevBridge4','RevolveRun','RevolveGW','Opt0Table','GenLang3','GenMulti','SeqGenSpec','HelperGenSpec','HelperTC'], [C05_total,
+   lifted('C05_helper_is_source','HelperGenSpec','oes_shape_is_Em',HELPER_SRC),
+   lifted('C05_helper_value','HelperTC','osb_is_TC','optimal_steps_binomial(n, s), as translated from the source, returns on its whole domain (n >= 1; s >= 1, or s >= 0 when n = 1; fuel = the recursion depth n) exactly TC n s: the number of forward steps C05_multistage_forward_total and C05_revolve_forward_total establish for the streams (for either trajectory tr), = n + the Griewank-Walther closed form by C05_chain'),
+   lifted('C05_helper_rejects','HelperGenSpec','oes_rejects','... and outside that domain (n <= 0, or s < min(1, n - 1)) both helpers raise ValueError before any recursion'), lifted('C05_revolve_sequence_is_source', 'SeqGenSpec', 'revolve_top_is_source', SEQ_SRC),
    lifted('C05_multistage_source_is_model','GenMulti','multi_from_start',MULTI_SRC),
    lifted('C05_chain','Inst','C05_chain','TC (the forward work of the recursion n_advance defines) = n + E n k, and E n k = the Griewank-Walther closed form; E = the model of optimal_extra_steps'),
    lifted('C05_gw_main','GW2','GW_main','Griewank-Walther: DP value = schedule recursion = closed form, for any E, Eh satisfying the DP / recursion equations'),
@@ -249,7 +253,11 @@ Proof. exact C3_C. Qed.
 Print Assumptions C06_cost_is_planner_cost.
 
 """
-mk('C06', ['MixInv','MixDP','GenLang5','GenMixed'], [C06_total,
+MIXHELPER_SRC = 'THE PUBLISHED HELPER optimal_steps_mixed IS THE SOURCE: MixHelperSpec.osm_shape is the Gallina function harness/translate.py (HelperTr) renders from optimal_steps_mixed of mixed.py (behind cache_step; `m = 1 + f(n-1, s-1); for i in range(2, n): m = min(m, i + f(i, s) + f(n-i, s-1))` as py_for over a running minimum); Gen/MixHelperGen.v re-translates the current source on every run and proves the result equal to that term by conversion.  Whenever the memoised planner mixed_step_memoization(n, s) (Mixed.memo, itself re-translated: Gen/MemoGen.v) returns a plan, the helper returns that plan\'s cost, for every fuel and argument'
+mk('C06', ['MixInv','MixDP','GenLang5','GenMixed','MixHelperSpec'], [C06_total,
+   lifted('C06_helper_is_source','MixHelperSpec','osm_of_memo',MIXHELPER_SRC),
+   lifted('C06_helper_is_planner_cost','MixHelperSpec','osm_value','optimal_steps_mixed(n, s), as translated from the source, returns on its whole domain MixDP.C n s -- by C06_cost_is_planner_cost and C06_mixed_forward_total the number of forward steps of the Mixed stream'),
+   lifted('C06_helper_rejects','MixHelperSpec','osm_rejects','... and outside that domain it raises ValueError before any recursion'),
    lifted('C06_mixed_source_is_model','GenMixed','mixed_from_start',MIXED_SRC),
    lifted('C06_mixed_terminates','MixBridge','mixed_terminates','... and that point is reached: within N (N + 3) + N + 2 requests the schedule is exhausted with exactly C N S forward steps executed'),
    lifted('C06_plan_1','MixDP','plan_1',''), lifted('C06_plan_ge2','MixDP','plan_ge2','facts of the concrete planner model: the step kind and length it prescribes'),
